@@ -16,6 +16,7 @@ import (
 	"fmt"
 	"os"
 	"os/exec"
+	"os/signal"
 	"path/filepath"
 	"regexp"
 	"runtime"
@@ -142,6 +143,20 @@ var (
 	goEnv   []string
 )
 
+var (
+	childMu  sync.Mutex
+	children = map[int]bool{}
+)
+
+// killChildren ends every worker process group (workers may have children of their own).
+func killChildren() {
+	childMu.Lock()
+	defer childMu.Unlock()
+	for pid := range children {
+		syscall.Kill(-pid, syscall.SIGKILL)
+	}
+}
+
 func die2(format string, a ...interface{}) {
 	fmt.Fprintf(os.Stderr, "vcheck: MACHINERY FAILURE: "+format+"\n", a...)
 	cleanup()
@@ -223,6 +238,16 @@ func main() {
 		die2("%v", err)
 	}
 	defer cleanup()
+	// a supervisor that is told to stop takes its workers with it
+	sigc := make(chan os.Signal, 1)
+	signal.Notify(sigc, syscall.SIGTERM, syscall.SIGINT, syscall.SIGHUP)
+	go func() {
+		<-sigc
+		killChildren()
+		cleanup()
+		fmt.Fprintln(os.Stderr, "vcheck: interrupted")
+		os.Exit(2)
+	}()
 	t0 := time.Now()
 	nw := *workersF
 	if nw <= 0 {
@@ -448,6 +473,14 @@ func (s *supervisor) spawn(job Job, timeout time.Duration) workerRun {
 	if err := cmd.Start(); err != nil {
 		die2("cannot start worker: %v", err)
 	}
+	childMu.Lock()
+	children[cmd.Process.Pid] = true
+	childMu.Unlock()
+	defer func() {
+		childMu.Lock()
+		delete(children, cmd.Process.Pid)
+		childMu.Unlock()
+	}()
 	done := make(chan error, 1)
 	go func() { done <- cmd.Wait() }()
 	stall := time.Duration(s.cfg.stallS) * time.Second
